@@ -1,15 +1,17 @@
 (* C01 — executable *specification* (oracle side; independent of the regenerated tables and of the scanners/grammar):
      trivia <hex input>   -> TRIVIA | TEXT      does the input consist of spaces, tabs, line ends, comments and annotations only?
+                           followed by <line>:<col> of the END of the input (1 + number of LF bytes, 1 + bytes since the last LF:
+                           LexDefs.count_nl / since_nl, the definitions wf_pos is stated with)
    (ParserDefs.trivia_only: a six-state automaton written from the property text, not from the parser) *)
-From Coq Require Import NArith List Bool String.
-From ChaiV Require Import StrUtil ParserDefs.
+From Coq Require Import ZArith NArith List Bool String.
+From ChaiV Require Import StrUtil LexDefs ParserDefs.
 Local Open Scope string_scope.
 
 Definition run_line (l : string) : string :=
   let w := words l in
   if String.eqb (nth_word 0 w) "trivia" then
     match bytes_of_hex (nth_word 1 w) with
-    | Some b => if trivia_only b then "TRIVIA" else "TEXT"
+    | Some b => (if trivia_only b then "TRIVIA " else "TEXT ") ++ dec_of_z (1 + count_nl b)%Z ++ ":" ++ dec_of_z (1 + Z.of_nat (since_nl b))%Z
     | None => "BADCASE"
     end
   else "BADCASE".
